@@ -156,9 +156,15 @@ Inductive aevent :=
 | AGoaway                                 (* GOAWAY, any error code *)
 | ALost.                                  (* connection_lost *)
 
-(* when a batch reaches the client: only while it is blocked, or (open() variant) immediately before
-   explicit step k of the body starts -- or when the client is blocked, whichever comes first *)
-Inductive trigger := TB | TS (k : nat).
+(* when a batch reaches the client: TB only while it is blocked in a receive; TS k (open() variant)
+   immediately before explicit step k of the body starts; TL while a listener (RecvInitialMetadata /
+   RecvMessage / RecvTrailingMetadata callback registered on the channel) is suspended -- at most one TL
+   batch per suspension.  A client blocked in a receive gets the next batch whatever its trigger. *)
+Inductive trigger := TB | TS (k : nat) | TL.
+(* which events have a listener that really suspends (awaits) before it returns *)
+Record listeners := { l_init : bool; l_msg : bool; l_trail : bool }.
+Definition no_listeners : listeners := {| l_init := false; l_msg := false; l_trail := false |}.
+Definition all_listeners : listeners := {| l_init := true; l_msg := true; l_trail := true |}.
 Record batch := { b_trig : trigger; b_events : list aevent }.
 
 Inductive op := RI | RM | IT | RT.     (* recv_initial_metadata, recv_message, async for, recv_trailing_metadata *)
@@ -275,8 +281,25 @@ Definition bind {A B} (m : step A) (f : A -> state -> list batch -> step B) : st
   | Stuck => Stuck
   end.
 
+(* `await self._dispatch.<event>(...)` inside `with self._wrapper`: without a listener it completes at
+   once; with a suspending listener the task is parked, a pending TL batch (if it is the next one)
+   arrives, and a cut in it cancels the task: Wrapper.__exit__ raises the StreamTerminatedError *)
+Definition listen_then {A} (on : bool) (s : state) (bs : list batch)
+           (k : state -> list batch -> step A) : step A :=
+  if on then
+    match bs with
+    | b :: r =>
+        match b_trig b with
+        | TL => let s' := apply_batch b s in
+                if werr s' then Raise XTerminated s' r else k s' r
+        | _ => k s bs
+        end
+    | [] => k s bs
+    end
+  else k s bs.
+
 (* Stream.recv_initial_metadata *)
-Definition recv_initial (s : state) (bs : list batch) : step unit :=
+Definition recv_initial (lis : listeners) (s : state) (bs : list batch) : step unit :=
   if ri_done s then Raise XProtocol s bs
   else if werr s then Raise XTerminated s bs                  (* Wrapper.__enter__ *)
   else match wait has_hdr s bs with
@@ -297,22 +320,24 @@ Definition recv_initial (s : state) (bs : list batch) : step unit :=
                        | GsAbsent =>
                            match hi_md h with                                (* im = decode_metadata(headers) *)
                            | MdBad => Raise (XMetadata BHdr) s1 bs'
-                           | MdOk => Ret tt s1 bs'
+                           | MdOk => listen_then (l_init lis) s1 bs' (fun s3 bs3 => Ret tt s3 bs3)
                            end
                        | g =>                                                (* trailers-only response *)
-                           let s2 := set_tonly s1 in
+                           (* RecvInitialMetadata is dispatched before the status is looked at *)
+                           listen_then (l_init lis) (set_tonly s1) bs' (fun s2 bs2 =>
                            match g with
-                           | GsInvalid => Raise (XBadGrpcStatus BHdr) s2 bs' (* _process_grpc_status *)
+                           | GsInvalid => Raise (XBadGrpcStatus BHdr) s2 bs2 (* _process_grpc_status *)
                            | _ =>
                                match hi_md h with                            (* tm = decode_metadata(headers) *)
-                               | MdBad => Raise (XMetadata BHdr) s2 bs'
-                               | MdOk =>
+                               | MdBad => Raise (XMetadata BHdr) s2 bs2
+                               | MdOk =>                                     (* RecvTrailingMetadata *)
+                                   listen_then (l_trail lis) s2 bs2 (fun s3 bs3 =>
                                    match g with
-                                   | GsErr => Raise (XServer BHdr) s2 bs'    (* _raise_for_grpc_status *)
-                                   | _ => Ret tt s2 bs'
-                                   end
+                                   | GsErr => Raise (XServer BHdr) s3 bs3    (* _raise_for_grpc_status *)
+                                   | _ => Ret tt s3 bs3
+                                   end)
                                end
-                           end
+                           end)
                        end
                    end
                end
@@ -320,21 +345,23 @@ Definition recv_initial (s : state) (bs : list batch) : step unit :=
        end.
 
 (* Stream.recv_message: true = a message, false = None (end of stream) *)
-Definition recv_message (s : state) (bs : list batch) : step bool :=
-  bind (if ri_done s then Ret tt s bs else recv_initial s bs) (fun _ s1 bs1 =>
+Definition recv_message (lis : listeners) (s : state) (bs : list batch) : step bool :=
+  bind (if ri_done s then Ret tt s bs else recv_initial lis s bs) (fun _ s1 bs1 =>
     if werr s1 then Raise XTerminated s1 bs1
     else match wait data_ready s1 bs1 with
          | WHang => Hangs
          | WTerm s2 bs2 => Raise XTerminated s2 bs2
          | WReady s2 bs2 =>
-             if 0 <? Z.of_nat (q s2) then Ret true (pop_msg s2) bs2 else Ret false s2 bs2
+             if 0 <? Z.of_nat (q s2)
+             then listen_then (l_msg lis) (pop_msg s2) bs2 (fun s3 bs3 => Ret true s3 bs3)   (* RecvMessage *)
+             else Ret false s2 bs2
          end).
 
 (* Stream.recv_trailing_metadata; the outgoing stream was ended by the send phase of every program.
    protocol.Stream.recv_trailers waits for trailers_received, which TrailersReceived AND the end of the
    stream set; woken without trailers it returns [] and _process_grpc_status({}) raises UNKNOWN. *)
 Definition trl_ready (s : state) : bool := has_trl s || eof s.
-Definition recv_trailing (s : state) (bs : list batch) : step unit :=
+Definition recv_trailing (lis : listeners) (s : state) (bs : list batch) : step unit :=
   if negb (ri_done s) then Raise XProtocol s bs
   else if rt_done s then Raise XProtocol s bs
   else if tonly s then Ret tt (set_rt s) bs
@@ -352,11 +379,12 @@ Definition recv_trailing (s : state) (bs : list batch) : step unit :=
                | g =>
                    match ti_md t with                                          (* decode_metadata(trailers) *)
                    | MdBad => Raise (XMetadata BTrl) s1 bs'
-                   | MdOk =>
+                   | MdOk =>                                                   (* RecvTrailingMetadata *)
+                       listen_then (l_trail lis) s1 bs' (fun s3 bs3 =>
                        match g with
-                       | GsErr => Raise (XServer BTrl) s1 bs'
-                       | _ => Ret tt s1 bs'
-                       end
+                       | GsErr => Raise (XServer BTrl) s3 bs3
+                       | _ => Ret tt s3 bs3
+                       end)
                    end
                end
            end
@@ -365,11 +393,11 @@ Definition recv_trailing (s : state) (bs : list batch) : step unit :=
 (* [message async for message in stream]: recv_message until None; n = messages so far.
    Every round either pops a buffered message or needs a batch, so fuel = messages + batches + 1
    suffices (fuel_of below); running out of fuel is reported as Stuck. *)
-Fixpoint iterate (fuel : nat) (n : nat) (s : state) (bs : list batch) : step nat :=
+Fixpoint iterate (lis : listeners) (fuel : nat) (n : nat) (s : state) (bs : list batch) : step nat :=
   match fuel with
   | O => Stuck
-  | S f => bind (recv_message s bs) (fun got s1 bs1 =>
-             if got then iterate f (S n) s1 bs1 else Ret n s1 bs1)
+  | S f => bind (recv_message lis s bs) (fun got s1 bs1 =>
+             if got then iterate lis f (S n) s1 bs1 else Ret n s1 bs1)
   end.
 
 Definition count_data (bs : list batch) : nat :=
@@ -410,9 +438,9 @@ Definition maybe_raise (s : state) : option exn :=
 
 (* Stream._maybe_finish: `if not self._cancel_done:` (cancel() is never called by these programs) and
    the two implicit receives; on a closing transport they fail at once in Wrapper.__enter__ *)
-Definition maybe_finish (s : state) (bs : list batch) : step unit :=
-  bind (if ri_done s then Ret tt s bs else recv_initial s bs) (fun _ s1 bs1 =>
-    if rt_done s1 then Ret tt s1 bs1 else recv_trailing s1 bs1).
+Definition maybe_finish (lis : listeners) (s : state) (bs : list batch) : step unit :=
+  bind (if ri_done s then Ret tt s bs else recv_initial lis s bs) (fun _ s1 bs1 =>
+    if rt_done s1 then Ret tt s1 bs1 else recv_trailing lis s1 bs1).
 
 Inductive fin := FinNone | FinExc (e : exn) | FinHang | FinStuck.
 
@@ -420,11 +448,11 @@ Definition upgrade (e : exn) (s : state) : exn :=
   if is_terminated e then match maybe_raise s with Some e' => e' | None => e end else e.
 
 (* Stream.__aexit__(exc): what leaves the `async with` statement *)
-Definition aexit (exc : option exn) (s : state) (bs : list batch) : fin :=
+Definition aexit (lis : listeners) (exc : option exn) (s : state) (bs : list batch) : fin :=
   match exc with
   | Some e => FinExc (upgrade e s)
   | None =>
-      match maybe_finish s bs with
+      match maybe_finish lis s bs with
       | Ret _ _ _ => FinNone
       | Raise e s' _ => FinExc (upgrade e s')
       | Hangs => FinHang
@@ -438,39 +466,39 @@ Fixpoint deliver_before (k : nat) (s : state) (bs : list batch) : state * list b
   | b :: r =>
       match b_trig b with
       | TS k' => if Nat.leb k' k then deliver_before k (apply_batch b s) r else (s, bs)
-      | TB => (s, bs)
+      | TB | TL => (s, bs)
       end
   | [] => (s, [])
   end.
 
-Definition run_op (fuel : nat) (o : op) (got : nat) (s : state) (bs : list batch) : step nat :=
+Definition run_op (lis : listeners) (fuel : nat) (o : op) (got : nat) (s : state) (bs : list batch) : step nat :=
   match o with
-  | RI => bind (recv_initial s bs) (fun _ s1 bs1 => Ret got s1 bs1)
-  | RM => bind (recv_message s bs) (fun m s1 bs1 => Ret (if m then S got else got) s1 bs1)
-  | IT => iterate fuel got s bs
-  | RT => bind (recv_trailing s bs) (fun _ s1 bs1 => Ret got s1 bs1)
+  | RI => bind (recv_initial lis s bs) (fun _ s1 bs1 => Ret got s1 bs1)
+  | RM => bind (recv_message lis s bs) (fun m s1 bs1 => Ret (if m then S got else got) s1 bs1)
+  | IT => iterate lis fuel got s bs
+  | RT => bind (recv_trailing lis s bs) (fun _ s1 bs1 => Ret got s1 bs1)
   end.
 
 (* explicit steps of an open() body, step k preceded by the inline deliveries due before it *)
-Fixpoint run_prog (fuel : nat) (k : nat) (ops : list op) (got : nat) (s : state) (bs : list batch)
+Fixpoint run_prog (lis : listeners) (fuel : nat) (k : nat) (ops : list op) (got : nat) (s : state) (bs : list batch)
   : step nat :=
   let '(s0, bs0) := deliver_before k s bs in
   match ops with
   | [] => Ret got s0 bs0
-  | o :: r => bind (run_op fuel o got s0 bs0) (fun g s1 bs1 => run_prog fuel (S k) r g s1 bs1)
+  | o :: r => bind (run_op lis fuel o got s0 bs0) (fun g s1 bs1 => run_prog lis fuel (S k) r g s1 bs1)
   end.
 
-Definition finish {A} (body : step A) (ok : A -> result) : result :=
+Definition finish {A} (lis : listeners) (body : step A) (ok : A -> result) : result :=
   match body with
   | Ret a s bs =>
-      match aexit None s bs with
+      match aexit lis None s bs with
       | FinNone => ok a
       | FinExc e => RExc e
       | FinHang => RHang
       | FinStuck => RStuck
       end
   | Raise e s bs =>
-      match aexit (Some e) s bs with
+      match aexit lis (Some e) s bs with
       | FinExc e' => RExc e'
       | _ => RStuck
       end
@@ -481,14 +509,14 @@ Definition finish {A} (body : step A) (ok : A -> result) : result :=
 (* The request side (send_message(end=True) / send_request(end=True)) completes without suspension and
    nothing of the response can precede it, so every body starts from [init] with the whole script
    pending. *)
-Definition outcome (k : kind) (bs : list batch) : result :=
+Definition outcome (lis : listeners) (k : kind) (bs : list batch) : result :=
   match k with
   | Call _ false =>                         (* reply = await stream.recv_message(); assert reply is not None *)
-      finish (recv_message init bs) (fun got => if got then ROk 1 else RExc XAssertion)
+      finish lis (recv_message lis init bs) (fun got => if got then ROk 1 else RExc XAssertion)
   | Call _ true =>                          (* return [message async for message in stream] *)
-      finish (iterate (fuel_of bs) 0 init bs) ROk
+      finish lis (iterate lis (fuel_of bs) 0 init bs) ROk
   | Open _ _ prog =>
-      finish (run_prog (fuel_of bs) 0 prog 0 init bs) ROk
+      finish lis (run_prog lis (fuel_of bs) 0 prog 0 init bs) ROk
   end.
 
 (* ================================================================================================ *)
@@ -605,8 +633,8 @@ Definition resolve (codec : bool) (es : list cevent) (r : result) : obs :=
 Definition cevents (bs : list cbatch) : list cevent := flat_map cb_events bs.
 
 (* the whole model: what a call of kind k observes on the concrete script bs *)
-Definition observe (csub : list Z) (codec : bool) (k : kind) (bs : list cbatch) : obs :=
-  resolve codec (cevents bs) (outcome k (alpha csub bs)).
+Definition observe (csub : list Z) (codec : bool) (lis : listeners) (k : kind) (bs : list cbatch) : obs :=
+  resolve codec (cevents bs) (outcome lis k (alpha csub bs)).
 
 (* ================================================================================================ *)
 (** * Part 5: the specification side *)
@@ -795,8 +823,15 @@ Definition step_triggers (n : nat) : list trigger := TB :: map TS (seq 0 (S n)).
 Definition open_kinds : list kind := map (fun p => Open false false p) open_progs.
 
 Definition prog_of (k : kind) : list op := match k with Open _ _ p => p | Call _ _ => [] end.
-Definition cases_of (maxd : nat) (k : kind) : list (list batch) :=
-  match k with
-  | Call _ _ => all_scripts maxd [TB]
-  | Open _ _ p => all_scripts maxd (step_triggers (List.length p))
-  end.
+(* a configuration of the enumeration: listeners, kind, bound on the number of messages.
+   Without listeners a TL batch behaves like a TB batch, so TL is enumerated only with listeners. *)
+Definition config := (listeners * kind * nat)%type.
+Definition triggers_of (c : config) : list trigger :=
+  let '(lis, k, _) := c in
+  (match k with Call _ _ => [TB] | Open _ _ p => step_triggers (List.length p) end)
+  ++ (if l_init lis || l_msg lis || l_trail lis then [TL] else []).
+Definition cases_of (c : config) : list (list batch) :=
+  let '(_, _, maxd) := c in all_scripts maxd (triggers_of c).
+Definition configs : list config :=
+  map (fun k => (no_listeners, k, 2%nat)) (call_kinds ++ open_kinds)
+  ++ map (fun k => (all_listeners, k, 1%nat)) (call_kinds ++ open_kinds).
